@@ -230,6 +230,13 @@ func effectsOf(p *engine.Prog, fn *ssa.Function, blocks map[*ssa.BasicBlock]bool
 					}
 					continue
 				}
+				// a pseudo-random generator that lives across iterations: every draw depends on how many draws
+				// earlier iterations made, i.e. on the iteration order
+				for _, a := range engine.CallArgs(x) {
+					if nn := engine.NamedOf(a.Type()); nn != nil && nn.Obj().Pkg() != nil && nn.Obj().Pkg().Path() == "math/rand" && nn.Obj().Name() == "Rand" && !local(a) {
+						eff["sharedrng"] = true
+					}
+				}
 				o := engine.CalleeObj(cc)
 				if o != nil && o.Pkg() != nil {
 					pp := o.Pkg().Path()
@@ -1102,6 +1109,9 @@ var detTable = map[string][]detEntry{
 	"grades.deleteGrades|maprange g.byCandidate[candidateIdx]": {{
 		"store:field:flipGrades.approveCnt store:field:flipGrades.cnt store:field:flipGrades.reportCnt store:field:flipGrades.totalScore",
 		"integer decrements of the counters of g.byFlip[flipIdx], keyed by the range key; integer addition commutes"}},
+	"UpgradeVotes.ToBytes|maprange uv.Dict": {{
+		"append store:field:ProtoUpgradeVotes.Votes",
+		"node-local bookkeeping of observed upgrade votes (database.Repo.WriteUpgradeVotes / ReadUpgradeVotes only): the decoder rebuilds the map, nothing hashes, signs or compares these bytes, so the element order of the encoding is unobservable"}},
 	"GetAuthorsDistribution|maprange shards": {{
 		"callw:appendAdditionalCandidates mapupdate:mem",
 		"per-shard independent: shardLotteries[shardId] is keyed by the range key; appendAdditionalCandidates writes only the two maps created for this shard in this iteration and uses its own PRNG seeded from the lottery seed"}},
